@@ -25,6 +25,7 @@ CONSTANTS
   Acts,    \* [action code |-> [kind, tag]]: kind "num" (value = the number tag), "ret" (returns
            \*   {tag, b: its visible bindings}), "throw" (fails)
   CondCodes, \* [condition code |-> kind of Query!CodeOn]
+  OneShot, \* set of schedule strings of one-shot jobs (they start with "+" or "!")
   MaxFacts \* capacity of every location
 
 -----------------------------------------------------------------------------
@@ -472,6 +473,31 @@ ExecFails(code, writable) ==
 \* the fact an "addfact" action writes: id = its tag
 MadeFact(code) == Obj("made" :> Str(Acts[code].tag))
 
+\* What follows rule finding: conditions, actions (those that write do so in the event's location with
+\* the caller's keys), and the removal of a one-shot scheduled rule once it has been evaluated.
+FinishEvent(mr, mw, ro, op, hits, locs) ==
+  LET l == op.loc  now == op.now
+      tree == UNION {RuleNodes(mr, now, l, locs, op.val, h.id, h.body, h.bss) : h \in hits}
+      writable == Gate(<<GWrite(mr[l], now, ro[l], op.wk), GCap(mr[l]), GEnabled(mr[l], now)>>) = "ok"
+      made == {x.code : x \in UNION {DOMAIN nd.execs : nd \in tree}}
+                 \cap {c \in DOMAIN Acts : Acts[c].kind = "addfact"}
+      RECURSIVE AddAll(_, _)
+      AddAll(m, S) == IF S = {} THEN m
+                      ELSE LET c == CHOOSE x \in S : TRUE
+                           IN AddAll(PutItem(m, Acts[c].tag, Item(MadeFact(c), 0)), S \ {c})
+      mw2 == IF writable THEN SetLoc(mw, l, AddAll(mw[l], made)) ELSE mw
+      \* RuleDone: a one-shot scheduled rule is removed after its evaluation (by RemRule, with the caller's keys)
+      once == {h.id : h \in {x \in hits : Has(x.body, "schedule") /\ x.body.m["schedule"].a \in OneShot}}
+      canRem == Gate(<<GEnabled(mr[l], now), GWrite(mr[l], now, ro[l], op.wk)>>) = "ok"
+      RECURSIVE RemAll(_, _)
+      RemAll(m, S) == IF S = {} THEN m
+                      ELSE LET i == CHOOSE x \in S : TRUE
+                               m1 == StateRem(m, i)
+                               flag == PropId(i, "disabled")
+                           IN RemAll(IF flag \in DOMAIN m1 THEN StateRem(m1, flag) ELSE m1, S \ {i})
+      mw3 == IF canRem /\ once # {} THEN SetLoc(mw2, l, RemAll(mw2[l], once)) ELSE mw2
+  IN Out(mw3, ro, [R0 EXCEPT !.found = hits, !.tree = tree, !.n = IF writable THEN 1 ELSE 0])
+
 \* ProcessEvent: rule finding (FindRules), then conditions and actions.
 OpProcessEvent(mr, mw, ro, op) ==
   LET l == op.loc  now == op.now
@@ -482,18 +508,20 @@ OpProcessEvent(mr, mw, ro, op) ==
       hits == UNION {{[id |-> i, bss |-> Match(WhenPattern(RuleBody(mr[a][i])), op.val), body |-> RuleBody(mr[a][i])] :
                          i \in {j \in MatchingRules(mr[a], now, op.val) : ~RuleDisabled(mr[l], now, j)}} :
                      a \in vs.locs}
-      tree == UNION {RuleNodes(mr, now, l, vs.locs, op.val, h.id, h.body, h.bss) : h \in hits}
-      \* actions that write do so in the event's location with the caller's keys
-      writable == Gate(<<GWrite(mr[l], now, ro[l], op.wk), GCap(mr[l]), GEnabled(mr[l], now)>>) = "ok"
-      made == {x.code : x \in UNION {DOMAIN nd.execs : nd \in tree}}
-                 \cap {c \in DOMAIN Acts : Acts[c].kind = "addfact"}
-      RECURSIVE AddAll(_, _)
-      AddAll(m, S) == IF S = {} THEN m
-                      ELSE LET c == CHOOSE x \in S : TRUE
-                           IN AddAll(PutItem(m, Acts[c].tag, Item(MadeFact(c), 0)), S \ {c})
-      mw2 == IF writable THEN SetLoc(mw, l, AddAll(mw[l], made)) ELSE mw
-      ok == Out(mw2, ro, [R0 EXCEPT !.found = hits, !.tree = tree, !.n = IF writable THEN 1 ELSE 0])
-  IN IF vs.err THEN {Out(mw, ro, Resp("error"))}
+      ok == FinishEvent(mr, mw, ro, op, hits, vs.locs)
+      \* {"trigger!": id}: what a cron tick delivers; evaluates rule id of this very location
+      tv == op.val.m["trigger!"]
+      tid == tv.a
+      trb == RuleBody(mr[l][tid])
+      tbss == IF RuleDisabled(mr[l], now, tid) THEN {}
+              ELSE IF HasWhenPattern(trb) THEN Match(WhenPattern(trb), op.val) ELSE {<<>>}
+      thits == IF tbss = {} THEN {} ELSE {[id |-> tid, bss |-> tbss, body |-> trb]}
+  IN IF Has(op.val, "trigger!")
+     THEN IF tv.k \notin {"s", "v"} \/ ReadGate(mr[l], now, op.rk) # "ok" THEN {Out(mw, ro, Resp("error"))}
+          ELSE IF tid \notin Vis(mr[l], now) \/ ~IsRuleItem(mr[l][tid]) THEN {Out(mw, ro, Resp("error"))}
+          ELSE IF vs.err \/ bad # {} THEN {Out(mw, ro, Resp("error")), FinishEvent(mr, mw, ro, op, thits, {l})}
+          ELSE {FinishEvent(mr, mw, ro, op, thits, vs.locs)}
+     ELSE IF vs.err THEN {Out(mw, ro, Resp("error"))}
      ELSE IF bad # {} THEN {Out(mw, ro, Resp("error"))}
      ELSE IF dupMust # {} THEN {Out(mw, ro, Resp("error"))}
      ELSE IF dupMay # {} THEN {ok, Out(mw, ro, Resp("error"))}
